@@ -3,3 +3,15 @@ pub(crate) struct DeserializeCfg {
     pub use_rawnumber: bool,
     pub utf8_lossy: bool,
 }
+
+impl DeserializeCfg {
+    /// The configuration selected by the cargo features (what `from_str`, `from_slice`, ... use):
+    /// the parsers behind the lazy iterators and the children of owned lazy values decode
+    /// strings with it as well.
+    pub(crate) fn from_features() -> Self {
+        Self {
+            utf8_lossy: cfg!(feature = "utf8_lossy"),
+            ..Default::default()
+        }
+    }
+}
